@@ -311,6 +311,11 @@ def run(ctx: common.Ctx):
     from . import c08_arrays
     c08_arrays.run(ctx)
 
+    # graph-level tie (B): the exported graph of every case is the term of Model/TGraphFns.getitemGraph
+    # (Props/C08Graph.lean: getitemGraph_eval, getitem_slices_nd, exported_slices_graph_correct)
+    from .. import tgraph
+    tgraph.run_getitem(ctx, cases)
+
 
 def nontrivial(idx):
     for e in idx:
